@@ -240,6 +240,10 @@ class Input(object):
             self.network = Network(network)
         self.index_n = index_n
         self.value = value_to_satoshi(value, network=network)
+        if isinstance(self.value, float):
+            if not self.value.is_integer():
+                raise TransactionError("Input value must be an integer amount of the smallest denominator")
+            self.value = int(self.value)
         if not keys:
             keys = []
         self.keys = []
